@@ -137,10 +137,21 @@ pub fn c10_judge(k: &SpreadCase, out: &GuardOutcome) -> Result<bool, String> {
     Ok(near)
 }
 
+/// a 128-bit decimal whose whole part is a multiple of 2^64 plus a small rest: a value a conversion through
+/// a 64-bit whole part would wrap to that small rest
+fn wrap64(s: &mut Src, rest_atomics: u128) -> u128 {
+    let k = 1 + s.below(17) as u128;
+    (k << 64).saturating_mul(E18).saturating_add(rest_atomics % (E18 << 3))
+}
+
 fn gen_price(s: &mut Src) -> u128 {
-    match s.weighted(&[3, 1, 1, 3, 3, 2, 1]) {
+    match s.weighted(&[3, 1, 1, 3, 3, 2, 1, 1]) {
         0 => E18,
         1 => 0,
+        7 => {
+            let r = s.upto_u128(E18 * 4);
+            wrap64(s, r)
+        }
         // the whole width of the 128-bit Decimal the message carries (whole part beyond 2^64)
         6 => s.bits_u128(128).max(1),
         2 => 1 + s.below(1000) as u128,
@@ -156,7 +167,14 @@ fn gen_price(s: &mut Src) -> u128 {
 
 fn gen_spread_limit(s: &mut Src) -> u128 {
     if s.chance(1, 8) {
-        E18 + if s.bool() { s.bits_u128(70) } else { s.bits_u128(127) } // above 100 %, up to the width of the 128-bit Decimal
+        match s.below(3) {
+            0 => E18 + s.bits_u128(70), // above 100 %
+            1 => E18 + s.bits_u128(127), // ... up to the width of the 128-bit Decimal
+            _ => {
+                let r = gen_rate_atomics(s);
+                wrap64(s, r)
+            }
+        }
     } else {
         gen_rate_atomics(s)
     }
@@ -387,7 +405,14 @@ pub fn gen_slip_case(s: &mut Src) -> SlipCase {
     let tol = match s.weighted(&[1, 8, 1]) {
         0 => None,
         1 => Some(gen_rate_atomics(s)),
-        _ => Some(E18 + 1 + if s.bool() { s.bits_u128(64) } else { s.bits_u128(127) }),
+        _ => Some(match s.below(3) {
+            0 => E18 + 1 + s.bits_u128(64),
+            1 => E18 + 1 + s.bits_u128(127),
+            _ => {
+                let r = gen_rate_atomics(s);
+                wrap64(s, r)
+            }
+        }),
     };
     let nz = |s: &mut Src| -> u128 {
         if s.chance(1, 40) { 0 } else { gen128(s).max(1) }
